@@ -1,6 +1,6 @@
 (* C19 — invalid settings are rejected, never silently analysed; valid ones are accepted.
    Model: Model/Validate.v. *)
-From Coq Require Import List Bool Arith ZArith Floats.PrimFloat.
+From Coq Require Import List Bool Arith ZArith String Floats.PrimFloat.
 Import ListNotations.
 From ByC Require Import Base.Result Base.FloatFacts Model.Validate Proofs.Validate.
 
@@ -31,6 +31,19 @@ Theorem C19_range_check_exact : forall x lo hi, finite x = true -> finite lo = t
 Proof. exact in_range_iff. Qed.
 Print Assumptions C19_range_check_exact.
 
+(* infinite values are outside every finite range (thresholds +/-inf are rejected) *)
+Theorem C19_range_check_rejects_infinities : forall lo hi, finite lo = true -> finite hi = true ->
+  in_range infinity lo hi = false /\ in_range neg_infinity lo hi = false.
+Proof. exact in_range_infinite. Qed.
+Print Assumptions C19_range_check_rejects_infinities.
+
+(* a non-positive sampling rate is rejected: every finite fs <= 0, both zeros, -inf and NaN *)
+Theorem C19_nonpositive_sampling_rate_rejected :
+  (forall fs, finite fs = true -> (fs <=? 0)%float = true -> fs_ok fs = false) /\
+  (fs_ok 0 = false /\ fs_ok (-0) = false /\ fs_ok nan = false /\ fs_ok neg_infinity = false).
+Proof. exact (conj fs_ok_nonpositive fs_ok_rejects). Qed.
+Print Assumptions C19_nonpositive_sampling_rate_rejected.
+
 Theorem C19_min_n_cycles_nonnegative : forall n, min_n_ok n = true <-> (0 <= n)%Z.
 Proof. exact min_n_ok_iff. Qed.
 Print Assumptions C19_min_n_cycles_nonnegative.
@@ -38,6 +51,21 @@ Print Assumptions C19_min_n_cycles_nonnegative.
 Theorem C19_enumerated_options : forall nv o, option_ok nv o = true <-> exists i, o = OptValid i /\ (i < nv)%nat.
 Proof. exact option_ok_iff. Qed.
 Print Assumptions C19_enumerated_options.
+
+(* the documented value tables (Model/Validate.v: documented_options), compared with the implementation on every run:
+   a value is accepted iff it is listed for that option *)
+Theorem C19_documented_option_tables : forall o v, option_accepts o v = true <-> In v (documented_options o).
+Proof. exact option_accepts_iff. Qed.
+Print Assumptions C19_documented_option_tables.
+
+Theorem C19_documented_option_values :
+  (forall v, option_accepts OCenter v = true <-> v = Some "peak"%string \/ v = Some "trough"%string) /\
+  (forall v, option_accepts OBurstMethod v = true <-> v = Some "cycles"%string \/ v = Some "amp"%string) /\
+  (forall v, option_accepts OFirstExtrema v = true <-> v = Some "peak"%string \/ v = Some "trough"%string \/ v = None) /\
+  (forall v, option_accepts ODirection v = true <-> v = Some "both"%string \/ v = Some "next"%string \/ v = Some "last"%string) /\
+  (forall v, option_accepts OProgress v = true <-> v = None \/ v = Some "tqdm"%string \/ v = Some "tqdm.notebook"%string).
+Proof. exact option_tables. Qed.
+Print Assumptions C19_documented_option_values.
 
 Theorem C19_dimensionality_guards :
   (forall d, bycycle_fit_dim_ok d = true <-> d = 1%nat) /\
